@@ -56,7 +56,7 @@ class Pair:
             self.dirhash[d] = oid
 
         def new(name):
-            idx = DataIndex.open(os.path.join(root, name + ".db")) if backend == "sqlite" else DataIndex()
+            idx = DataIndex.open(os.path.join(root, name + ".db")) if backend.startswith("sqlite") else DataIndex()
             idx.storage_map.add_cache(ObjectStorage((), self.odb))
             return idx
 
@@ -71,9 +71,14 @@ class Pair:
                 self.explicit[T(k)] = DataIndexEntry(key=T(k), meta=Meta(md5=MD5[k]), hash_info=HashInfo("md5", MD5[k]))
         for d in ("data/sub", "data/sub/deep"):
             self.explicit[T(d)] = DataIndexEntry(key=T(d), meta=Meta(isdir=True), loaded=True)
-        if backend == "sqlite":
+        if backend.startswith("sqlite"):
             self.lazy.commit()
             self.explicit.commit()
+        if backend == "sqlite-reopened":
+            # a later session: the indexes written above are opened again (nothing is cached in memory any more)
+            self.lazy.close()
+            self.explicit.close()
+            self.lazy, self.explicit = new("lazy"), new("explicit")
 
     def loaded(self):
         out = []
@@ -167,15 +172,31 @@ def run_trace(case):
 
         pair.other_index = other_index
         events = []
-        for a in case["ops"]:
-            op, args = a["op"], a["args"]
-            ex = call(pair.explicit, op, args, pair)
-            lz = call(pair.lazy, op, args, pair)
-            ld = pair.loaded()
-            again = call(pair.lazy, op, args, pair)
-            lz, ex, again = _nonull(lz), _nonull(ex), _nonull(again)
-            events.append({"act": {"op": op, "args": args}, "lazy": lz, "explicit": ex, "again": again, "loaded": ld,
-                           "content_ok": bool(lz.get("ok", True))})
+        # count how often a directory object is read from storage (the repeated call must not read any)
+        from dvc_data.hashfile.tree import Tree
+
+        loads = {"n": 0}
+        real_load = Tree.load.__func__
+
+        def counting_load(cls, *a, **kw):
+            loads["n"] += 1
+            return real_load(cls, *a, **kw)
+
+        Tree.load = classmethod(counting_load)
+        try:
+            for a in case["ops"]:
+                op, args = a["op"], a["args"]
+                ex = call(pair.explicit, op, args, pair)
+                lz = call(pair.lazy, op, args, pair)
+                ld = pair.loaded()
+                before = loads["n"]
+                again = call(pair.lazy, op, args, pair)
+                reloads = loads["n"] - before
+                lz, ex, again = _nonull(lz), _nonull(ex), _nonull(again)
+                events.append({"act": {"op": op, "args": args}, "lazy": lz, "explicit": ex, "again": again, "loaded": ld,
+                               "reloads": reloads, "content_ok": bool(lz.get("ok", True))})
+        finally:
+            Tree.load = classmethod(real_load)
         pair.lazy.close()
         pair.explicit.close()
         return events
@@ -204,7 +225,7 @@ def sim_cases(num, depth, seed):
             a = to_json(st["act"])
             ops.append({"op": a["op"], "args": list(a["args"])})
         if ops:
-            cases.append({"id": i, "ops": ops, "backend": "sqlite" if i % 3 == 0 else "memory"})
+            cases.append({"id": i, "ops": ops, "backend": ["sqlite", "memory", "sqlite-reopened"][i % 3]})
     return cases
 
 
@@ -219,7 +240,7 @@ def directed_cases():
     singles += [("Iter", [d, sh]) for d in dirs for sh in (False, True)]
     singles += [("ViewIter", [f]) for f in FILTERS] + [("ViewLs", [f, d]) for f in FILTERS for d in dirs]
     singles += [("FsCat", [k]) for k in FILES] + [("HashDiff", [])]
-    for backend in ("memory", "sqlite"):
+    for backend in ("memory", "sqlite", "sqlite-reopened"):
         for op, args in singles:
             cases.append({"id": n, "ops": [{"op": op, "args": args}, {"op": "Iter", "args": ["", False]}], "backend": backend})
             n += 1
